@@ -64,9 +64,12 @@ class RepeatingEventBase(EventBase):
         seg_start = moof.traf.tfdt.base_media_decode_time
         seg_end = seg_start + representation.segments[mod_segment].duration
 
-        # convert seg_start and seg_end to event timebase
-        seg_start = (seg_start * self.timescale) // representation.timescale
-        seg_end = (seg_end * self.timescale) // representation.timescale
+        # convert seg_start and seg_end to event timebase, rounding up: an
+        # event at (integer) time E lies in the segment if
+        # seg_start <= E < seg_end in exact arithmetic, which for a
+        # fractional boundary x means ceil(x) <= E
+        seg_start = -((-seg_start * self.timescale) // representation.timescale)
+        seg_end = -((-seg_end * self.timescale) // representation.timescale)
 
         # print('seg start={} end={} duration={}'.format(
         #    seg_start, seg_end, seg_end - seg_start))
